@@ -164,7 +164,8 @@ def make_case(d, sp, rs, ls, reqs, rnd, adapter_kind):
     else:
         lines = [["p"] + r for r in rs] + [[gk] + l for gk, l in ls]
         ad = adapter_F(lines) if adapter_kind == "F" else adapter_S(lines)
-    steps = [(Q_e(r) if rnd.random() < 0.9 else Q_em(r)) for r in reqs] + ["?ga:p", "?ga:g"]
+    # three entry points: enforce(Vec), enforce_mut, enforce(tuple) (the serde path of EnforceArgs)
+    steps = [(Q_e(r) if c < 0.6 else Q_em(r) if c < 0.7 else Q_et(r)) for r, c in ((r, rnd.random()) for r in reqs)] + ["?ga:p", "?ga:g"]
     return case("eng", sp, ad, "-", steps)
 
 
